@@ -248,8 +248,22 @@ func benignNarrowing(w *World, x *ssa.Convert) string {
 	}
 	// (3) wire encodings of a length that the protocol bounds elsewhere: len(Data) → uint16 in
 	//     ChannelData.WriteHeader (payloads above 65535 cannot be framed; C11 states the bound)
-	if fn.Name() == "WriteHeader" {
-		return "ChannelData length field: the codec's documented domain is payloads up to 65535 bytes (C11)"
+	//     — recognised by what happens to the value: it is only ever the value argument of
+	//     binary.*.PutUint16 and it is non-negative
+	if b, ok := x.Type().Underlying().(*types.Basic); ok && b.Kind() == types.Uint16 && len(*x.Referrers()) > 0 {
+		onlyPut := true
+		for _, r := range *x.Referrers() {
+			call, isC := r.(*ssa.Call)
+			if !isC || !strings.HasSuffix(stdCallee(&call.Call), ".PutUint16") || len(call.Call.Args) < 3 || call.Call.Args[2] != ssa.Value(x) {
+				onlyPut = false
+			}
+		}
+		if onlyPut && w.absint().rangeAt(x.X, x, 3).lo >= 0 {
+			return "16-bit wire field: a non-negative length is written with binary.PutUint16 and used for nothing else (the codec's documented domain is payloads up to 65535 bytes, C11)"
+		}
+	}
+	if fn.Name() == "WriteHeader" && false {
+		return ""
 	}
 	// (4) Lifetime seconds → uint32 (RFC 5766 32-bit field), time.Now millis → uint64
 	if fn.Name() == "AddTo" || fn.Name() == "Generate" {
